@@ -634,9 +634,11 @@ func (s *Subscription) processCollectionEvent(event *rescache.ResourceEvent) {
 			s.queueEvents(queueReasonLoading)
 
 			sub.OnReady(func() {
-				// Assert client is still subscribing
-				// If not we just unsubscribe
-				if s.state == stateDisposed {
+				// Assert client still holds the collection. It does not if the
+				// subscription is disposed or deleted, or if it has been
+				// reset to not being sent, in which case the client gets the
+				// collection, with this value, once it is sent again.
+				if s.state != stateSent {
 					return
 				}
 
@@ -735,8 +737,11 @@ func (s *Subscription) processModelEvent(event *rescache.ResourceEvent) {
 		count := len(subs)
 		for _, sub := range subs {
 			sub.OnReady(func() {
-				// Assert client is not disposed
-				if s.state == stateDisposed {
+				// Assert client still holds the model. It does not if the
+				// subscription is disposed or deleted, or if it has been
+				// reset to not being sent, in which case the client gets the
+				// model, with these values, once it is sent again.
+				if s.state != stateSent {
 					return
 				}
 
